@@ -186,6 +186,8 @@ func main() {
 			code = replay(pos[0], pos[1])
 		case "det":
 			code = determinism(opts)
+		case "min":
+			code = minIdx(opts)
 		case "show":
 			code = show(opts)
 		case "sweep":
